@@ -849,3 +849,108 @@ _C06.append({'module': 'boltons.urlutils', 'qualname': 'unquote', 'lean_name': '
              'result': 'Str', 'tie_theorem': 'C06.src_unquote_eq_model', 'translator': 'py2lean_c06',
              'gen_file': 'urlutils_quote', 'c06': _C06_CFG})
 SPECS['C06'] = _C06
+
+
+# --- round 3f: C09, the list helpers of boltons/iterutils.py (harness/py2lean_c09.py, notes/SRCTIE.md section 8).
+# Lists of an ABSTRACT item type `α` (keys `κ`, values `β`); `kinds` = the declared kind of a parameter, by which the
+# front-end decides the dispatch tests of the function head (`callable(key)`, `key is None`, `isinstance(src, str)` ...);
+# a parameter of kind 'none' is the constant None and is not a Lean parameter.  `locals` = declared types of the locals
+# (`Set κ` / `Iter α` / `Dict κ | List β` are lists at run time, `Fn α → κ` a function, `KwFill α` a `**kw` holding at
+# most the key `kw_key`).  `ops` = spec-declared operations passed as leading parameters.  chunk_ranges stays in
+# Src_iterutils.lean (base translator), byte-identical.
+_C09_COMMON = {'module': 'boltons.iterutils', 'gen_file': 'iterutils_c09', 'translator': 'py2lean_c09', 'raises': True}
+_C09 = [
+    dict(_C09_COMMON, qualname='_validate_positive_int', lean_name='validate_positive_int', kind='function',
+         params={'value': 'Int', 'name': 'Msg', 'strictly_positive': 'Bool'}, result='Int',
+         defaults={'strictly_positive': 'true'}, tie_theorem='C09.src_validate_positive_int_eq_model'),
+    dict(_C09_COMMON, qualname='chunked_iter', lean_name='chunked_iter', kind='generator',
+         tparams=['α'], classes=['PyRtC09.PyNone α'],
+         params={'src': 'List α', 'size': 'Int', 'kw': 'KwFill α'}, kinds={'src': 'list'}, kw_key='fill',
+         locals={'do_fill': 'Bool', 'fill_val': 'α', 'postprocess': 'Fn List α → List α', 'src_iter': 'Iter α',
+                 'cur_chunk': 'List α', 'lc': 'Int'},
+         helpers={'_validate_positive_int': 'validate_positive_int'}, result='List α',
+         tie_theorem='C09.src_chunked_iter_eq_model'),
+]
+_C09 += [
+    dict(_C09_COMMON, qualname='unique_iter', lean_name='unique_iter', kind='generator',
+         tparams=['α', 'κ'], classes=['DecidableEq κ'],
+         params={'src': 'List α', 'key': 'Fn α → κ'}, kinds={'src': 'list', 'key': 'callable'},
+         locals={'key_func': 'Fn α → κ', 'seen': 'Set κ', 'k': 'κ'}, result='α',
+         tie_theorem='C09.src_unique_iter_eq_model'),
+    dict(_C09_COMMON, qualname='unique_iter', lean_name='unique_iter_nokey', kind='generator',
+         tparams=['α'], classes=['DecidableEq α'],
+         params={'src': 'List α', 'key': 'Msg'}, kinds={'src': 'list', 'key': 'none'},
+         locals={'key_func': 'Fn α → α', 'seen': 'Set α', 'k': 'α'}, result='α',
+         tie_theorem='C09.src_unique_iter_nokey_eq_model'),
+    dict(_C09_COMMON, qualname='bucketize', lean_name='bucketize', kind='function',
+         tparams=['α', 'κ', 'β'], classes=['DecidableEq κ'],
+         params={'src': 'List α', 'key': 'Fn α → κ', 'value_transform': 'Fn α → β', 'key_filter': 'Fn κ → Bool'},
+         kinds={'src': 'list', 'key': 'callable', 'value_transform': 'callable', 'key_filter': 'callable'},
+         locals={'key_func': 'Fn α → κ', 'ret': 'Dict κ | List β', 'key_of_val': 'κ', 'f': 'Fn α → β'},
+         result='Dict κ | List β', tie_theorem='C09.src_bucketize_eq_model'),
+    dict(_C09_COMMON, qualname='bucketize', lean_name='bucketize_plain', kind='function',
+         tparams=['α', 'κ'], classes=['DecidableEq κ'],
+         params={'src': 'List α', 'key': 'Fn α → κ', 'value_transform': 'Fn α → α', 'key_filter': 'Msg'},
+         kinds={'src': 'list', 'key': 'callable', 'value_transform': 'none', 'key_filter': 'none'},
+         locals={'key_func': 'Fn α → κ', 'ret': 'Dict κ | List α', 'key_of_val': 'κ', 'f': 'Fn α → α'},
+         result='Dict κ | List α', tie_theorem='C09.src_bucketize_plain_eq_model'),
+    dict(_C09_COMMON, qualname='split_iter', lean_name='split_iter_func', kind='generator',
+         tparams=['α'],
+         params={'src': 'List α', 'sep': 'Fn α → Bool', 'maxsplit': 'Option Int'},
+         kinds={'src': 'list', 'sep': 'callable'},
+         locals={'sep_func': 'Fn α → Bool', 'cur_group': 'List α', 'split_count': 'Int'}, result='List α',
+         tie_theorem='C09.src_split_iter_func_eq_model'),
+    dict(_C09_COMMON, qualname='split_iter', lean_name='split_iter_value', kind='generator',
+         tparams=['α'], ops={'eqv': 'Fn α → α → Bool'},
+         params={'src': 'List α', 'sep': 'α', 'maxsplit': 'Option Int'},
+         kinds={'src': 'list', 'sep': 'value'},
+         locals={'sep_func': 'Fn α → Bool', 'cur_group': 'List α', 'split_count': 'Int'}, result='List α',
+         tie_theorem='C09.src_split_iter_value_eq_model'),
+    dict(_C09_COMMON, qualname='split_iter', lean_name='split_iter_none', kind='generator',
+         tparams=['α'], ops={'isNone': 'Fn α → Bool'},
+         params={'src': 'List α', 'sep': 'Msg', 'maxsplit': 'Option Int'},
+         kinds={'src': 'list', 'sep': 'none'},
+         locals={'sep_func': 'Fn α → Bool', 'cur_group': 'List α', 'split_count': 'Int'}, result='List α',
+         tie_theorem='C09.src_split_iter_none_eq_model'),
+    dict(_C09_COMMON, qualname='partition', lean_name='partition', kind='function',
+         tparams=['α', 'κ'], classes=['DecidableEq κ'], ops={'pyTrue': 'κ', 'pyFalse': 'κ'},
+         params={'src': 'List α', 'key': 'Fn α → κ'}, kinds={'src': 'list', 'key': 'callable'},
+         locals={'bucketized': 'Dict κ | List α'}, helpers={'bucketize': 'bucketize_plain'},
+         result='(List α) × (List α)', tie_theorem='C09.src_partition_eq_model'),
+    # the list-returning forms: `return list(<the generator form>(...))`
+    dict(_C09_COMMON, qualname='chunked', lean_name='chunked_nocount', kind='function',
+         tparams=['α'], classes=['PyRtC09.PyNone α'],
+         params={'src': 'List α', 'size': 'Int', 'count': 'Msg', 'kw': 'KwFill α'},
+         kinds={'src': 'list', 'count': 'none'}, locals={'chunk_iter': 'Gen List α'},
+         helpers={'chunked_iter': 'chunked_iter'}, result='List (List α)',
+         tie_theorem='C09.src_chunked_nocount_eq_model'),
+    dict(_C09_COMMON, qualname='unique', lean_name='unique_list', kind='function',
+         tparams=['α', 'κ'], classes=['DecidableEq κ'],
+         params={'src': 'List α', 'key': 'Fn α → κ'}, kinds={'src': 'list', 'key': 'callable'},
+         helpers={'unique_iter': 'unique_iter'}, result='List α', tie_theorem='C09.src_unique_list_eq_model'),
+    dict(_C09_COMMON, qualname='unique', lean_name='unique_list_nokey', kind='function',
+         tparams=['α'], classes=['DecidableEq α'],
+         params={'src': 'List α', 'key': 'Msg'}, kinds={'src': 'list', 'key': 'none'},
+         helpers={'unique_iter': 'unique_iter_nokey'}, result='List α', tie_theorem='C09.src_unique_list_nokey_eq_model'),
+    dict(_C09_COMMON, qualname='split', lean_name='split_func', kind='function', tparams=['α'],
+         params={'src': 'List α', 'sep': 'Fn α → Bool', 'maxsplit': 'Option Int'},
+         kinds={'src': 'list', 'sep': 'callable'}, helpers={'split_iter': 'split_iter_func'},
+         result='List (List α)', tie_theorem='C09.src_split_func_eq_model'),
+    dict(_C09_COMMON, qualname='split', lean_name='split_value', kind='function', tparams=['α'],
+         ops={'eqv': 'Fn α → α → Bool'}, params={'src': 'List α', 'sep': 'α', 'maxsplit': 'Option Int'},
+         kinds={'src': 'list', 'sep': 'value'}, helpers={'split_iter': 'split_iter_value'},
+         result='List (List α)', tie_theorem='C09.src_split_value_eq_model'),
+    dict(_C09_COMMON, qualname='split', lean_name='split_none', kind='function', tparams=['α'],
+         ops={'isNone': 'Fn α → Bool'}, params={'src': 'List α', 'sep': 'Msg', 'maxsplit': 'Option Int'},
+         kinds={'src': 'list', 'sep': 'none'}, helpers={'split_iter': 'split_iter_none'},
+         result='List (List α)', tie_theorem='C09.src_split_none_eq_model'),
+    dict(_C09_COMMON, qualname='lstrip_iter', lean_name='lstrip_iter', kind='generator', tparams=['α'],
+         ops={'eqv': 'Fn α → α → Bool'}, params={'iterable': 'List α', 'strip_value': 'α'},
+         kinds={'iterable': 'list'}, locals={'iterator': 'Iter α'}, result='α',
+         tie_theorem='C09.src_lstrip_iter_eq_model'),
+    dict(_C09_COMMON, qualname='lstrip', lean_name='lstrip_list', kind='function', tparams=['α'],
+         ops={'eqv': 'Fn α → α → Bool'}, params={'iterable': 'List α', 'strip_value': 'α'},
+         kinds={'iterable': 'list'}, helpers={'lstrip_iter': 'lstrip_iter'}, result='List α',
+         tie_theorem='C09.src_lstrip_list_eq_model'),
+]
+SPECS['C09'] = SPECS['C09'] + _C09
